@@ -432,6 +432,8 @@ def h_enclosing(base, region="bbox"):
         corners = [(l, b), (l, b + h), (l + w, b), (l + w, b + h)]
     else:
         # a polygon that does not fill its own bounding box (a triangle with symbolic vertices)
+        if symx.concrete_mode():
+            setup_fakegeom()  # the replay uses the same vertex-list geometry, on plain floats
         corners = [(Real(f"vx{k}"), Real(f"vy{k}")) for k in range(3)]
         region = gbx.Geometry(corners + corners[:1], "epsg:3857")
     r = g.enclosing(region)
